@@ -263,6 +263,18 @@ impl RetryStream {
             Poll::Ready(response) => {
                 let http_result: HttpResult = response.into();
                 match http_result {
+                    HttpResult::Ok(response)
+                        if self.retry_state.next_byte > 0
+                            && response.status() != reqwest::StatusCode::PARTIAL_CONTENT =>
+                    {
+                        // We asked for the remainder of the file. Anything but a partial response
+                        // starts over from the first byte, which we have already passed on.
+                        let next_byte = self.retry_state.next_byte;
+                        self.poll_err(format!(
+                            "expected a partial response to the range request 'bytes={next_byte}-', got status {}",
+                            response.status()
+                        ))
+                    }
                     HttpResult::Ok(response) => {
                         trace!("{:?} - returning from successful fetch", self.retry_state);
                         if let Some(ranges) = response.headers().get(ACCEPT_RANGES) {
